@@ -100,16 +100,18 @@ pub enum Ent { Named, WithoutTargetName, Absent }
 pub const ENTS: [Ent; 3] = [Ent::Named, Ent::WithoutTargetName, Ent::Absent];
 
 /// where the delegate is declared: in the class the call names, in that class' super class (the call names a
-/// sub class, as javac does), in no class of any jar
+/// sub class, as javac does), two levels above the class the call names, in no class of any jar
 #[derive(Clone, Copy, Debug, PartialEq, Eq)]
-pub enum Decl { AtOwner, AboveOwner, Nowhere }
-pub const DECLS: [Decl; 3] = [Decl::AtOwner, Decl::AboveOwner, Decl::Nowhere];
+pub enum Decl { AtOwner, AboveOwner, TwoAboveOwner, Nowhere }
+pub const DECLS: [Decl; 4] = [Decl::AtOwner, Decl::AboveOwner, Decl::TwoAboveOwner, Decl::Nowhere];
 
 /// what kind of class file holds the candidate
 #[derive(Clone, Copy, Debug, PartialEq, Eq)]
 pub enum Holder { Class, Interface, Abstract, Final, Synthetic, Enum }
 pub const HOLDERS: [Holder; 6] = [Holder::Class, Holder::Interface, Holder::Abstract, Holder::Final, Holder::Synthetic, Holder::Enum];
 pub const CALAMI: [Calamus; 4] = [Calamus::Identity, Calamus::Empty, Calamus::Renames, Calamus::RenamesInherited];
+/// the calamus modes of the relay space: the bridge's intermediary name from every place above the bridge's class
+pub const CALAMI_RELAY: [Calamus; 8] = [Calamus::Identity, Calamus::RenamesUp2, Calamus::RenamesIface, Calamus::RenamesIface0, Calamus::RenamesUp1, Calamus::RenamesInherited, Calamus::Renames, Calamus::Empty];
 
 /// modifiers explored on the candidate: none, private, static, final, static final, private static final
 pub const MODIFIERS: [u16; 6] = [0, 0x0002, 0x0008, 0x0010, 0x0018, 0x001a];
@@ -309,6 +311,10 @@ pub fn build(spec: &Spec) -> Built {
 		Decl::AtOwner => Some(owner),
 		Decl::AboveOwner => Some(match chain.iter().position(|k| *k == owner) {
 			Some(i) if i > 0 => chain[i - 1],
+			_ => owner,
+		}),
+		Decl::TwoAboveOwner => Some(match chain.iter().position(|k| *k == owner) {
+			Some(i) if i > 1 => chain[i - 2],
 			_ => owner,
 		}),
 		Decl::Nowhere => None,
